@@ -74,6 +74,19 @@ class Dim:
     __add__ = __radd__ = __sub__ = __rsub__ = _no
 
 
+class AllOf:
+    """np.arange(N) for a symbolic extent N, used as a selector: every position of an axis of extent N, in order (`.size == N`; indexing such an axis with it is the identity)"""
+
+    def __init__(self, dim):
+        self.dim = dim
+        self.size = dim
+        self.shape = (dim,)
+        self.ndim = 1
+
+    def ravel(self):
+        return self
+
+
 class CDim(Dim):
     """extent of a flattened axis: the product, in C order, of symbolic extents and numbers, e.g. Ne*nPe*2.  The index runs over (e, n, k); the representative data carries
     the numerical factors (here nPe*2 entries), generic in the symbolic ones"""
@@ -512,6 +525,11 @@ class GA:
         """-> (result symbolic shape, index for data)"""
         if not isinstance(idx, tuple):
             idx = (idx,)
+        if idx and isinstance(idx[0], AllOf):
+            # `np.arange(extent)` used as the list of ALL positions of the leading axis of that extent: the identity selection
+            if not self.shape or self.shape[0] is not idx[0].dim:
+                raise Unsupported(f"np.arange({idx[0].dim}) indexing an axis of extent {self.shape[:1]}")
+            idx = (slice(None),) + idx[1:]
         idx = tuple(i.data[()] if isinstance(i, GA) and i.shape == () else i for i in idx)
         n_real = sum(1 for i in idx if i is not None and i is not Ellipsis)
         if sum(1 for i in idx if i is Ellipsis) > 1:
@@ -1017,12 +1035,12 @@ def einsum(subs, *ops, **kw):
                 if _is_sym(cur) or _is_sym(d):
                     if cur is d:
                         continue
-                    if c in ell_letters and (cur == 1 or d == 1):
+                    if cur == 1 or d == 1:          # numpy broadcasts an extent of 1 under a named subscript too
                         dims[c] = d if cur == 1 else cur
                         continue
                     raise ShapeError(f"einsum {subs!r}: subscript {c} has extents {cur} and {d}")
                 if cur != d:
-                    if c in ell_letters and (cur == 1 or d == 1):
+                    if cur == 1 or d == 1:
                         dims[c] = max(cur, d)
                         continue
                     raise ShapeError(f"einsum {subs!r}: subscript {c} has extents {cur} and {d}")
@@ -1109,6 +1127,8 @@ class NP:
         return a
 
     def arange(self, *a, **k):
+        if len(a) == 1 and isinstance(a[0], Dim):
+            return AllOf(a[0])
         return _np.arange(*[int(x) for x in a], **k)
 
     def asarray(self, a, dtype=None, **k):
@@ -1231,6 +1251,22 @@ class NP:
         if all(isinstance(a, _np.ndarray) for a in parts):
             return _np.concatenate(parts, axis=axis) if parts else _np.concatenate(list(seq), axis=axis)
         raise Unsupported("concatenation of several arrays of symbolic extent")
+
+    def stack(self, seq, axis=0, **k):
+        """arrays of one and the same (symbolic) shape joined along a NEW axis of concrete extent len(seq)"""
+        parts = [self.sp.lift(a) for a in seq]
+        if not parts:
+            raise ValueError("need at least one array to stack")
+        sh = parts[0].shape
+        for a in parts[1:]:
+            if len(a.shape) != len(sh) or any((x is not y) if (_is_sym(x) or _is_sym(y)) else (int(x) != int(y)) for x, y in zip(a.shape, sh)):
+                raise ShapeError(f"all input arrays must have the same shape: {sh} and {a.shape}")
+        nd = len(sh) + 1
+        ax = axis + nd if axis < 0 else axis
+        if not 0 <= ax < nd:
+            raise ValueError(f"axis {axis} is out of bounds for array of dimension {nd}")
+        data = _np.stack([a.data for a in parts], axis=ax)
+        return GA(self.sp, sh[:ax] + (len(parts),) + sh[ax:], data)
 
     def ravel(self, a, **k):
         return self.sp.lift(a).ravel()
